@@ -63,6 +63,8 @@ type RModel struct {
 	onceDone    map[*Value]bool
 	onceRunning map[*Value]int
 	syncMaps    map[*Value]*Map
+	pcOf        map[*ssa.Function]int64
+	pcNames     map[int64]string
 }
 
 func newRModel(it *Interp) *RModel {
@@ -83,6 +85,24 @@ func newRModel(it *Interp) *RModel {
 	}
 	m.bufs = map[*Value]*strings.Builder{}
 	return m
+}
+
+// codePointer gives an ordinary function a stable pseudo code pointer (>= 16).
+func (m *RModel) codePointer(fn *ssa.Function) int64 {
+	if m.pcOf == nil {
+		m.pcOf = map[*ssa.Function]int64{}
+		m.pcNames = map[int64]string{}
+	}
+	if pc, ok := m.pcOf[fn]; ok {
+		return pc
+	}
+	pc := int64(16 + len(m.pcOf))
+	m.pcOf[fn] = pc
+	name := fn.String()
+	// runtime names closures pkg.outer.func1; go/ssa names them outer$1
+	name = strings.ReplaceAll(name, "$", ".func")
+	m.pcNames[pc] = name
+	return pc
 }
 
 func (m *RModel) resetPath() {
@@ -601,7 +621,18 @@ func (m *RModel) valueMethod(name string, args []Value) (Value, bool) {
 		return outs, true
 	case "Pointer":
 		need()
-		return int64(1), true
+		// code pointer: every MakeFunc function shares reflect.makeFuncStub, an ordinary
+		// function (or every closure of one literal) has its own
+		switch f := r.load().(type) {
+		case *MakeFuncObj:
+			return int64(1), true
+		case *Closure:
+			if f == nil {
+				return int64(0), true
+			}
+			return m.codePointer(f.fn), true
+		}
+		return int64(2), true
 	case "Len":
 		need()
 		switch v := r.load().(type) {
@@ -691,8 +722,24 @@ func (m *RModel) external(fn *ssa.Function, name string, args []Value) (Value, b
 		v, ok := reflect.StructTag(args[0].(string)).Lookup(args[1].(string))
 		return Tuple{v, ok}, true
 	case "runtime.FuncForPC":
-		return (*Value)(nil), true
+		pc, _ := args[0].(int64)
+		name, ok := m.pcNames[pc]
+		if pc == 1 {
+			name, ok = "reflect.makeFuncStub", true
+		}
+		if !ok {
+			return (*Value)(nil), true
+		}
+		cell := Value(&HostObj{kind: "rfunc", data: name})
+		return &cell, true
 	case "(*runtime.Func).Name":
+		p, _ := args[0].(*Value)
+		if p == nil {
+			return "", true
+		}
+		if h, ok := (*p).(*HostObj); ok {
+			return h.data.(string), true
+		}
 		return "", true
 	case "github.com/hashicorp/go-hclog.L", "github.com/hashicorp/go-hclog.Default", "github.com/hashicorp/go-hclog.NewNullLogger":
 		return Iface{types.Typ[types.UnsafePointer], &HostObj{kind: "hclog"}}, true
